@@ -16,7 +16,9 @@ Record pobs := mkPath { pname : Z; pcell : option fmap; peff : option (fmap * li
 Record step := mkStep { sop : op; smust : bool; sout : outcome;
                         sgch : fmap; sgrem : list Z; sdch : fmap; sdrem : list Z; spaths : list pobs }.
 
-Inductive case := History (m : mode) (name_f : Z) (g d : fmap) (paths : list pobs) (steps : list step).
+Inductive case :=
+| History (m : mode) (name_f : Z) (g d : fmap) (paths : list pobs) (steps : list step)
+| Unanswered (m : mode).   (* an edit request got no answer at all (details in the case description) *)
 
 (* ---- helpers (own definitions: spec_fail below does not use the model) -------------------------------------- *)
 Fixpoint look (k : Z) (m : list (Z * Z)) : option Z :=
@@ -73,6 +75,7 @@ Definition mismatch (c : case) : bool :=
   | History _ name_f g d ps sts =>
       let w := load (obs_view g d ps) in
       negb (view_agrees name_f (abs w) g d ps && run_steps name_f w g d sts)
+  | Unanswered _ => true
   end.
 
 (* ---- the property on the observations alone --------------------------------------------------------------------------- *)
@@ -165,4 +168,5 @@ Fixpoint steps_ok (name_f : Z) (g d : fmap) (ps : list pobs) (sts : list step) :
 Definition spec_fail (c : case) : bool :=
   match c with
   | History _ name_f g d ps sts => negb (forallb (eff_ok name_f d) ps && steps_ok name_f g d ps sts)
+  | Unanswered _ => true
   end.
